@@ -11,7 +11,7 @@ use std::net::Ipv6Addr;
 use serde_json::json;
 use tantivy::fieldnorm::FieldNormReader;
 use tantivy::postings::serializer::PostingsSerializer;
-use tantivy::postings::Postings;
+use tantivy::postings::{BlockSegmentPostings, Postings};
 use tantivy::schema::{
     BytesOptions, DateOptions, Facet, FacetOptions, Field, IndexRecordOption, IpAddrOptions, JsonObjectOptions, NumericOptions,
     OwnedValue, Schema, TextFieldIndexing, TextOptions,
@@ -23,7 +23,7 @@ use tvh::out::CaseOut;
 use tvh::rng::Rng;
 use tvh::{guarded, Args};
 
-const HEADER: &str = "From TV Require Import Base.Prelude Generated.Constants Postings.VInt Postings.FieldNorm Postings.Codec Postings.BP4x Postings.Positions Postings.Spec Postings.Cases.";
+const HEADER: &str = "From TV Require Import Base.Prelude Generated.Constants Postings.VInt Postings.FieldNorm Postings.Codec Postings.BP4x Postings.Positions Postings.Spec Postings.Merge Postings.Cases.";
 
 fn opt_of(k: u64) -> IndexRecordOption {
     match k { 0 => IndexRecordOption::Basic, 1 => IndexRecordOption::WithFreqs, _ => IndexRecordOption::WithFreqsAndPositions }
@@ -345,6 +345,277 @@ fn build_segment(rng: &mut Rng, cfg: &FieldCfg, ndocs: usize, shape: u64, vocab:
     Ok(SegOutcome { docs: docs_in, rb, cfg_desc, opt: eff_opt, field, index })
 }
 
+
+/// Everything that is left in a block cursor, block after block (docs() / freq(idx) / advance()).
+fn drain_blocks(bp: &mut BlockSegmentPostings, limit: usize) -> Result<Vec<(u32, u32)>, String> {
+    let mut v = vec![];
+    loop {
+        let n = bp.docs().len();
+        if n == 0 { break; }
+        for idx in 0..n { v.push((bp.doc(idx), bp.freq(idx))); }
+        if v.len() > limit + 256 { return Err("cursor does not terminate".into()); }
+        bp.advance();
+    }
+    Ok(v)
+}
+
+/// The things done to a block cursor before it is re-targeted on another term.
+fn use_cursor(rng: &mut Rng, bp: &mut BlockSegmentPostings, plist: &[Posting]) -> &'static str {
+    match rng.below(7) {
+        0 => "untouched",
+        1 => { bp.advance(); "advance1" }
+        2 => { bp.advance(); bp.advance(); "advance2" }
+        3 => { bp.seek(plist[plist.len() / 2].doc); "seek-middle" }
+        4 => { bp.seek(plist[plist.len() - 1].doc); "seek-last" }
+        5 => { let k = rng.below(plist.len() as u64) as usize; bp.seek(plist[k].doc); bp.advance(); "seek-then-advance" }
+        _ => { let mut g = 0; while !bp.docs().is_empty() && g < plist.len() + 4 { bp.advance(); g += 1; } "exhausted" }
+    }
+}
+
+// ---- several fields, several segments, merge -------------------------------------------------------------------
+struct MField { name: String, kind: Kind, opt: IndexRecordOption, norms: bool, tokenizer: &'static str, field: Field, max_tokens: u64, vocab: u64 }
+
+struct MergeOutcome {
+    fields: Vec<MField>,
+    /// per segment (before the merge) and for the merged segment: per field (documents in doc-id order, read-back)
+    segments: Vec<(String, Vec<(Vec<DocIn>, Result<ReadBack, String>)>)>,
+    /// per source segment: per field its documents (in source doc-id order) and, per document, alive at the merge
+    sources: Vec<(Vec<Vec<DocIn>>, Vec<bool>)>,
+    desc: serde_json::Value,
+}
+
+/// estimate_total_num_tokens of a merged field, from the source segments (Postings/Merge.v::merged_total; the
+/// pro-rata branch with the implementation's own f64 expression)
+fn expected_merged_total(normed: bool, sources: &[(Vec<DocIn>, Vec<bool>)]) -> u64 {
+    let mut total = 0u64;
+    for (docs, alive) in sources {
+        let ntok: Vec<u64> = docs.iter().map(|d| reference_index(IndexRecordOption::Basic, std::slice::from_ref(d)).1).collect();
+        let exact: u64 = ntok.iter().sum();
+        if alive.iter().all(|a| *a) { total += exact; }
+        else if normed { total += ntok.iter().zip(alive).filter(|(_, a)| **a).map(|(n, _)| FieldNormReader::id_to_fieldnorm(fieldnorm_id_ref(*n as u32)) as u64).sum::<u64>(); }
+        else { let ratio = alive.iter().filter(|a| **a).count() as f64 / docs.len() as f64; total += (exact as f64 * ratio) as u64; }
+    }
+    total
+}
+
+fn merge_scenario(rng: &mut Rng, nsegs: usize, docs_per_seg: (u64, u64), small: bool) -> Result<MergeOutcome, String> {
+    let toks = ["whitespace", "default"];
+    let mut sb = Schema::builder();
+    let id_field = sb.add_u64_field("id", NumericOptions::default().set_indexed().set_fast());
+    let nfields = rng.range(2, 4) as usize;
+    let mut fields: Vec<MField> = vec![];
+    for k in 0..nfields {
+        let name = format!("f{k}");
+        // at least two fields with field norms; the others at random
+        let norms = k < 2 || rng.chance(2, 3);
+        let numeric = k >= 1 && rng.chance(1, 4);
+        let max_tokens = if small { rng.range(1, 4) } else { [3u64, 30, 12, 60, 300][rng.below(5) as usize] };
+        let vocab = if small { rng.range(2, 5) } else { [5u64, 25, 200][rng.below(3) as usize] };
+        if numeric {
+            let o = NumericOptions::default().set_indexed();
+            let f = sb.add_u64_field(&name, if norms { o.set_fieldnorm() } else { o });
+            fields.push(MField { name, kind: Kind::U64, opt: IndexRecordOption::Basic, norms, tokenizer: "raw", field: f, max_tokens: max_tokens.min(6), vocab });
+        } else {
+            let opt = opt_of(rng.below(3));
+            let tokenizer = toks[rng.below(2) as usize];
+            let indexing = TextFieldIndexing::default().set_tokenizer(tokenizer).set_index_option(opt).set_fieldnorms(norms);
+            let f = sb.add_text_field(&name, TextOptions::default().set_indexing_options(indexing));
+            fields.push(MField { name, kind: Kind::Text, opt, norms, tokenizer, field: f, max_tokens, vocab });
+        }
+    }
+    let index = Index::create_in_ram(sb.build());
+    let mut writer = index.writer_with_num_threads::<TantivyDocument>(1, 100_000_000).map_err(|e| format!("{e:?}"))?;
+    writer.set_merge_policy(Box::new(tantivy::merge_policy::NoMergePolicy));
+    // documents by id: per field the token streams
+    let mut all_docs: Vec<Vec<DocIn>> = vec![]; // [id][field]
+    let mut seg_ids: Vec<Vec<u64>> = vec![];
+    let mut next_id = 0u64;
+    for _ in 0..nsegs {
+        let nd = rng.range(docs_per_seg.0, docs_per_seg.1);
+        let mut ids = vec![];
+        for _ in 0..nd {
+            let mut doc = TantivyDocument::default();
+            doc.add_u64(id_field, next_id);
+            let mut per_field: Vec<DocIn> = vec![];
+            for mf in &fields {
+                let mut groups: DocIn = vec![];
+                // one document out of 6 does not have the field at all; lengths differ from field to field
+                if !rng.chance(1, 6) {
+                    match mf.kind {
+                        Kind::Text => {
+                            let nvals = if rng.chance(1, 5) { 2 } else { 1 };
+                            let mut values = vec![];
+                            for _ in 0..nvals {
+                                let nw = rng.range(if nvals == 1 { 1 } else { 0 }, mf.max_tokens);
+                                let text = (0..nw).map(|_| format!("{}{}", mf.name, rng.below(mf.vocab))).collect::<Vec<_>>().join(" ");
+                                values.push(analyze(&index, mf.tokenizer, &text));
+                                doc.add_text(mf.field, &text);
+                            }
+                            groups.push(Group { text: true, values });
+                        }
+                        _ => {
+                            for _ in 0..rng.range(1, mf.max_tokens) {
+                                let v = rng.below(mf.vocab);
+                                doc.add_u64(mf.field, v);
+                                groups.push(Group { text: false, values: vec![vec![Tok { term: Term::from_field_u64(mf.field, v).serialized_value_bytes().to_vec(), pos: 0, len: 1 }]] });
+                            }
+                        }
+                    }
+                }
+                per_field.push(groups);
+            }
+            writer.add_document(doc).map_err(|e| format!("{e:?}"))?;
+            all_docs.push(per_field);
+            ids.push(next_id);
+            next_id += 1;
+        }
+        writer.commit().map_err(|e| format!("{e:?}"))?;
+        seg_ids.push(ids);
+    }
+    let read_segment = |seg: &tantivy::SegmentReader, label: &str| -> Result<(String, Vec<(Vec<DocIn>, Result<ReadBack, String>)>), String> {
+        let col = seg.fast_fields().u64("id").map_err(|e| format!("{e:?}"))?;
+        let ids: Vec<u64> = (0..seg.max_doc()).map(|d| col.first(d).unwrap_or(u64::MAX)).collect();
+        if ids.iter().any(|&i| i as usize >= all_docs.len()) { return Err(format!("{label}: a document without id")); }
+        let mut per_field = vec![];
+        for (k, mf) in fields.iter().enumerate() {
+            let docs: Vec<DocIn> = ids.iter().map(|&i| all_docs[i as usize][k].clone()).collect();
+            let rb = match guarded(|| read_back(seg, mf.field, mf.norms, ids.len())) { Ok(r) => r, Err(p) => Err(format!("panic: {p}")) };
+            per_field.push((docs, rb));
+        }
+        Ok((label.to_string(), per_field))
+    };
+    let mut segments = vec![];
+    let reader = index.reader().map_err(|e| format!("{e:?}"))?;
+    {
+        let searcher = reader.searcher();
+        if searcher.segment_readers().len() != nsegs { return Err(format!("expected {nsegs} segments, got {}", searcher.segment_readers().len())); }
+        for (i, seg) in searcher.segment_readers().iter().enumerate() { segments.push(read_segment(seg, &format!("segment {i} before the merge"))?); }
+    }
+    // optionally delete a few documents, then merge everything
+    let mut deleted = vec![];
+    if rng.chance(1, 2) && next_id > 3 {
+        for _ in 0..rng.range(1, (next_id / 5).max(1)) { let v = rng.below(next_id); deleted.push(v); writer.delete_term(Term::from_field_u64(id_field, v)); }
+        writer.commit().map_err(|e| format!("{e:?}"))?;
+    }
+    let ids = index.searchable_segment_ids().map_err(|e| format!("{e:?}"))?;
+    if !ids.is_empty() {
+        match guarded(|| writer.merge(&ids).wait()) { Ok(Ok(_)) => {} Ok(Err(e)) => return Err(format!("merge failed: {e:?}")), Err(p) => return Err(format!("merge panicked: {p}")) }
+    }
+    writer.wait_merging_threads().ok();
+    reader.reload().map_err(|e| format!("{e:?}"))?;
+    let searcher = reader.searcher();
+    if searcher.segment_readers().len() > 1 { return Err(format!("expected one merged segment, got {}", searcher.segment_readers().len())); }
+    let mut ndocs_merged = 0;
+    for seg in searcher.segment_readers() {
+        if seg.has_deletes() { return Err("merged segment still has deletes".into()); }
+        ndocs_merged = seg.max_doc();
+        segments.push(read_segment(seg, "merged segment")?);
+    }
+    deleted.sort(); deleted.dedup();
+    let desc = json!({"what": "merge scenario", "segments": seg_ids.iter().map(|v| v.len()).collect::<Vec<_>>(), "deleted": deleted.len(), "merged_docs": ndocs_merged,
+        "fields": fields.iter().map(|f| json!({"name": f.name, "kind": format!("{:?}", f.kind), "opt": opt_code(f.opt), "norms": f.norms, "tokenizer": f.tokenizer, "max_tokens": f.max_tokens})).collect::<Vec<_>>()});
+    if ndocs_merged as usize + deleted.len() != next_id as usize { return Err(format!("merged segment has {} documents, expected {}", ndocs_merged, next_id as usize - deleted.len())); }
+    let sources = seg_ids.iter().map(|ids| {
+        let per_field: Vec<Vec<DocIn>> = (0..fields.len()).map(|k| ids.iter().map(|&i| all_docs[i as usize][k].clone()).collect()).collect();
+        (per_field, ids.iter().map(|i| !deleted.contains(i)).collect())
+    }).collect();
+    Ok(MergeOutcome { fields, segments, sources, desc })
+}
+
+/// Compare one field of one segment with the reference of the specification (Rust side).
+fn check_against_reference(out: &mut CaseOut, opt: IndexRecordOption, docs: &[DocIn], rb: &ReadBack, desc: &serde_json::Value, total_override: Option<u64>) {
+    let (exp, total, ntok) = reference_index(opt, docs);
+    let total = total_override.unwrap_or(total);
+    let exp_v: Vec<(Vec<u8>, Vec<Posting>)> = exp.into_iter().collect();
+    let ok_terms = exp_v.len() == rb.terms.len() && exp_v.iter().zip(&rb.terms).all(|(a, b)| a.0 == b.0);
+    out.spec_checked(ok_terms, json!({"what": "term dictionary differs from the distinct sorted terms", "case": desc, "expected": exp_v.len(), "got": rb.terms.len()}));
+    if ok_terms {
+        for (j, (a, b)) in exp_v.iter().zip(&rb.terms).enumerate() {
+            out.spec_checked(a.1 == b.1 && rb.doc_freqs[j] as usize == a.1.len(), json!({"what": "posting list differs", "case": desc, "term": cf::hex(&a.0), "expected_len": a.1.len(), "got_len": b.1.len()}));
+        }
+    }
+    out.spec_checked(rb.total == total, json!({"what": "total_num_tokens", "case": desc, "expected": total, "got": rb.total}));
+    if let Some(ns) = &rb.norms {
+        let first_bad = ns.iter().zip(&ntok).position(|(id, n)| *id != fieldnorm_id_ref(*n));
+        let ok = ns.len() == ntok.len() && first_bad.is_none();
+        out.spec_checked(ok, json!({"what": "fieldnorm ids differ from the quantised token counts", "case": desc, "first_bad_doc": first_bad,
+            "got": first_bad.map(|d| ns[d]), "expected": first_bad.map(|d| fieldnorm_id_ref(ntok[d]))}));
+    }
+    out.spec_checked(rb.dict_ok, json!({"what": "term dictionary lookups disagree with its stream", "case": desc}));
+    out.spec_checked(rb.pos_panics.is_empty(), json!({"what": "Postings::positions() panicked", "case": desc}));
+}
+
+/// One BlockSegmentPostings cursor re-targeted from term to term (InvertedIndexReader::reset_block_postings_from_terminfo)
+/// after arbitrary prior use must read what a fresh cursor reads: the posting list of the term.
+/// Known class F71: the field records frequencies and the previous or the new term was recorded without them
+/// (non-text JSON leaf): `reset` keeps the record option / frequency decoder of the previous term.
+#[allow(clippy::too_many_arguments)]
+fn reuse_checks(out: &mut CaseOut, rng: &mut Rng, inv: &tantivy::InvertedIndexReader, exp_v: &[(Vec<u8>, Vec<Posting>)], cands: &[usize],
+                docs: &[DocIn], opt: IndexRecordOption, desc: &serde_json::Value, thorough: bool) {
+    if cands.is_empty() { return; }
+    let is_text = |key: &Vec<u8>| docs.iter().any(|d| d.iter().any(|g| g.text && g.values.iter().any(|v| v.iter().any(|t| &t.term == key))));
+    let long: Vec<usize> = cands.iter().cloned().filter(|&j| exp_v[j].1.len() >= 129).collect();
+    let req = opt_of(rng.range(0, 2));
+    let with_freq = req.has_freq();
+    let steps = if thorough { 60 } else { 24 };
+    let mut reuse_coq = if thorough { 4 } else { 2 };
+    let mut known_coq = 2;
+    for step in 0..steps {
+        // previous term: mostly one with >= 129 documents (so that the cursor can leave its first block)
+        let jp = if !long.is_empty() && step % 4 != 3 { long[rng.below(long.len() as u64) as usize] } else { cands[rng.below(cands.len() as u64) as usize] };
+        let jn = if step % 3 == 0 { jp } else { cands[rng.below(cands.len().min(20) as u64) as usize] };
+        let (kp, pp) = &exp_v[jp];
+        let (kn, pn) = &exp_v[jn];
+        let tip = inv.terms().get(kp).unwrap().unwrap();
+        let tin = inv.terms().get(kn).unwrap().unwrap();
+        let mut usage = "";
+        // a fresh cursor on the previous term for every step: the state before the reset is exactly (term, usage)
+        let r = guarded(|| -> Result<Vec<(u32, u32)>, String> {
+            let mut bp = inv.read_block_postings_from_terminfo(&tip, req).map_err(|e| format!("{e:?}"))?;
+            usage = use_cursor(rng, &mut bp, pp);
+            inv.reset_block_postings_from_terminfo(&tin, &mut bp).map_err(|e| format!("{e:?}"))?;
+            // re-targeted twice in a row (a cursor walking over the terms of a field)
+            if step % 5 == 4 { usage = "exhausted-then-reset"; let _ = drain_blocks(&mut bp, pn.len())?; inv.reset_block_postings_from_terminfo(&tin, &mut bp).map_err(|e| format!("{e:?}"))?; }
+            drain_blocks(&mut bp, pn.len())
+        });
+        let expected: Vec<(u32, u32)> = pn.iter().map(|x| (x.doc, if with_freq { x.tf } else { 1 })).collect();
+        let mut d = json!({"what": "cursor re-targeted with reset_block_postings_from_terminfo reads a different posting list", "case": desc,
+            "previous_term": cf::hex(kp), "previous_len": pp.len(), "usage": usage, "term": cf::hex(kn), "len": pn.len(), "requested": opt_code(req)});
+        let ok = match &r {
+            Ok(Ok(got)) => {
+                let first_diff = got.iter().zip(&expected).position(|(a, b)| a != b);
+                d["first_diff"] = json!(first_diff); d["got_len"] = json!(got.len());
+                if let Some(k) = first_diff { d["got"] = json!(got[k]); d["expected"] = json!(expected[k]); }
+                *got == expected
+            }
+            Ok(Err(e)) => { d["error"] = json!(e); false }
+            Err(p) => { d["panic"] = json!(p); false }
+        };
+        let f71 = opt.has_freq() && (!is_text(kp) || !is_text(kn));
+        if ok || !f71 {
+            out.spec_checked(ok, d.clone());
+            if let Ok(Ok(got)) = &r {
+                if reuse_coq > 0 && pp.len() >= 129 && usage != "untouched" && pn.len() <= 400 {
+                    reuse_coq -= 1;
+                    let ds: Vec<u32> = pn.iter().map(|x| x.doc).collect();
+                    let tfs: Vec<u32> = pn.iter().map(|x| x.tf).collect();
+                    out.coq_case("spec", format!("reuse_case {} {} {} {}", cf::boolean(with_freq), cf::ns(&ds), cf::ns(&tfs), cf::list(got, |(a, b)| format!("({}, {})", a, b))), d.clone(), true);
+                }
+            }
+        } else if known_coq > 0 && docs.len() <= 60 {
+            // classifier evaluated by Coq on the documents of the segment
+            known_coq -= 1;
+            out.coq_case("known:F71", format!("f71_class (ro {}) {} {} {}", opt_code(opt), docs_term(docs), cf::bytes(kp), cf::bytes(kn)), d.clone(), true);
+        } else {
+            out.n_spec += 1;
+            d["known"] = json!("F71");
+            out.spec_fail.push(d.clone());
+        }
+        out.count("cursor_reuse_steps", 1);
+        if pp.len() >= 129 && usage != "untouched" { out.count("cursor_reuse_after_leaving_first_block", 1); }
+    }
+}
+
 fn fieldnorm_id_ref(n: u32) -> u8 { FieldNormReader::fieldnorm_to_id(n) }
 
 fn main() {
@@ -577,7 +848,88 @@ fn main() {
                                 }
                             }
                         }
+                        reuse_checks(&mut out, &mut rng, &inv, &exp_v, &cands, &so.docs, so.opt, &desc, thorough);
                         out.count(&format!("large_segments_{:?}", cfg.kind), 1);
+                    }
+                }
+            }
+        }
+    }
+    // ---------------- (iii-b) JSON fields: cursor reuse across text and non-text terms ----------------
+    for i in 0..(if thorough { 12 } else { 4 }) {
+        let cfg = FieldCfg { kind: Kind::Json, opt: opt_of(i as u64 % 3), norms: false, tokenizer: toks[i % 2] };
+        let ndocs = if i % 2 == 0 { 40 } else { 400 };
+        match build_segment(&mut rng, &cfg, ndocs, 0, 3) {
+            Err(e) => out.spec_checked(false, json!({"what": "indexing failed", "error": e})),
+            Ok(so) => {
+                let desc = json!({"what": "json segment (cursor reuse)", "cfg": so.cfg_desc});
+                if let Ok(rb) = &so.rb {
+                    let (exp, _total, _ntok) = reference_index(so.opt, &so.docs);
+                    let exp_v: Vec<(Vec<u8>, Vec<Posting>)> = exp.into_iter().collect();
+                    let same = exp_v.len() == rb.terms.len() && exp_v.iter().zip(&rb.terms).all(|(a, b)| a.0 == b.0 && a.1 == b.1);
+                    out.spec_checked(same, json!({"what": "inverted index of a JSON field differs from the specification", "case": desc}));
+                    if same {
+                        let reader = so.index.reader().unwrap();
+                        let searcher = reader.searcher();
+                        let inv = searcher.segment_reader(0).inverted_index(so.field).unwrap();
+                        let mut cands: Vec<usize> = (0..exp_v.len()).collect();
+                        rng.shuffle(&mut cands);
+                        cands.sort_by_key(|&j| std::cmp::Reverse(exp_v[j].1.len().min(300)));
+                        reuse_checks(&mut out, &mut rng, &inv, &exp_v, &cands, &so.docs, so.opt, &desc, thorough);
+                        out.count("json_reuse_segments", 1);
+                    }
+                }
+            }
+        }
+    }
+
+    // ---------------- (iv) several normed fields, several segments, merge ----------------
+    let n_merge_small = if thorough { 120 } else { 24 };
+    for _ in 0..n_merge_small {
+        let nsegs = rng.range(2, 3) as usize;
+        match merge_scenario(&mut rng, nsegs, (1, 4), true) {
+            Err(e) => out.spec_checked(false, json!({"what": "merge scenario failed", "error": e})),
+            Ok(mo) => {
+                for (label, per_field) in &mo.segments {
+                    for (fk, (mf, (docs, rb))) in mo.fields.iter().zip(per_field).enumerate() {
+                        let desc = json!({"what": "field of a segment", "segment": label, "field": mf.name, "scenario": mo.desc, "docs": docs_term(docs)});
+                        match rb {
+                            Err(e) => out.spec_checked(false, json!({"what": "read-back failed", "error": e, "case": desc})),
+                            Ok(rb) => {
+                                let norms = match &rb.norms { Some(v) => format!("(Some {})", cf::ns(v)), None => "None".into() };
+                                if label == "merged segment" {
+                                    let srcs = cf::list(&mo.sources, |(pf, al)| format!("({}, {})", docs_term(&pf[fk]), cf::list(al, |a| cf::boolean(*a))));
+                                    out.coq_case("spec", format!("check_field_merged (ro {}) {} {} {} {} {} {} {}", opt_code(mf.opt), cf::boolean(mf.norms), docs_term(docs), observed_term(&rb.terms), cf::ns(&rb.doc_freqs), rb.total, norms, srcs),
+                                                 desc, mf.norms && docs.len() >= 2);
+                                    let srcs_r: Vec<(Vec<DocIn>, Vec<bool>)> = mo.sources.iter().map(|(pf, al)| (pf[fk].clone(), al.clone())).collect();
+                                    out.spec_checked(rb.total == expected_merged_total(mf.norms, &srcs_r), json!({"what": "total_num_tokens of a merged field differs from the documented estimate", "field": mf.name, "scenario": mo.desc, "got": rb.total}));
+                                } else {
+                                    out.coq_case("spec", format!("check_field (ro {}) {} {} {} {} {}", opt_code(mf.opt), docs_term(docs), observed_term(&rb.terms), cf::ns(&rb.doc_freqs), rb.total, norms), desc, false);
+                                }
+                                out.count(if label == "merged segment" { "merged_fields_coq" } else { "premerge_fields_coq" }, 1);
+                            }
+                        }
+                    }
+                }
+            }
+        }
+    }
+    let n_merge_large = if thorough { 30 } else { 6 };
+    for i in 0..n_merge_large {
+        let per = if i % 3 == 2 { (120, 300) } else { (20, 90) };
+        let nsegs = rng.range(2, 4) as usize;
+        match merge_scenario(&mut rng, nsegs, per, false) {
+            Err(e) => out.spec_checked(false, json!({"what": "merge scenario failed", "error": e})),
+            Ok(mo) => {
+                for (label, per_field) in &mo.segments {
+                    for (fk, (mf, (docs, rb))) in mo.fields.iter().zip(per_field).enumerate() {
+                        let desc = json!({"what": "field of a segment", "segment": label, "field": mf.name, "scenario": mo.desc});
+                        match rb {
+                            Err(e) => out.spec_checked(false, json!({"what": "read-back failed", "error": e, "case": desc})),
+                            Ok(rb) => { let merged = label == "merged segment";
+                                let srcs: Vec<(Vec<DocIn>, Vec<bool>)> = mo.sources.iter().map(|(pf, al)| (pf[fk].clone(), al.clone())).collect();
+                                check_against_reference(&mut out, mf.opt, docs, rb, &desc, if merged { Some(expected_merged_total(mf.norms, &srcs)) } else { None }); out.count(if label == "merged segment" { "merged_fields" } else { "premerge_fields" }, 1); if mf.norms && label == "merged segment" { out.count("merged_normed_fields", 1); } }
+                        }
                     }
                 }
             }
